@@ -270,6 +270,13 @@ class Interp:
                     self._store_at(st, oid, path[:-1], ("struct", ent[1], f2))
                 else:
                     st.store[oid] = ("struct", ent[1], f2)
+        if path and oid[0] == "E":
+            tgt0 = st.store.get(oid)
+            if tgt0 is not None and tgt0[0] == "struct" and tgt0[1] == r.entry:
+                t0 = tgt0[2].get("#tid")
+                if isinstance(t0, tuple) and t0 and t0[0] == "stale":
+                    # a store through a handle to an entry that may already have been removed from / moved out of its table
+                    self.gadd(st, "stale_write", "%s.%s" % (oid[0], path[-1]))
         if path and path[-1] in r.links and oid[0] != "L":
             par = self.load(st, oid, path[:-1]) if len(path) > 1 else st.store.get(oid)
             if par is not None and par[0] == "struct" and par[1] == r.entry:
@@ -1424,7 +1431,17 @@ class Joiner:
                 if k in x[2] and k in y[2]:
                     if k == "#cur":
                         f[k] = self.jcur(x[2][k], y[2][k])
-                    elif k in ("#tid", "#seal_of"):
+                    elif k == "#tid":
+                        tx, ty_ = x[2][k], y[2][k]
+                        if tx == ty_:
+                            f[k] = tx
+                        else:
+                            def base(t):
+                                return t[1] if (isinstance(t, tuple) and t and t[0] == "stale") else t
+                            st_x = isinstance(tx, tuple) and tx and tx[0] == "stale"
+                            st_y = isinstance(ty_, tuple) and ty_ and ty_[0] == "stale"
+                            f[k] = ("stale", base(tx)) if (st_x or st_y) and base(tx) == base(ty_) else None
+                    elif k == "#seal_of":
                         f[k] = x[2][k] if x[2][k] == y[2][k] else None
                     else:
                         f[k] = self.jv(x[2][k], y[2][k], a, b)
